@@ -2104,6 +2104,10 @@ func op_mvn(cpu *CPU) {
 		cpu.RX++
 	}
 
+	// the count is the full 16-bit C accumulator; with m=1 it lives in RAh:RAl
+	if cpu.M == 1 {
+		cpu.RA = uint16(cpu.RAh)<<8 | uint16(cpu.RAl)
+	}
 	cpu.RA--
 	cpu.RAl = uint8(cpu.RA & 0x00ff)
 	cpu.RAh = uint8(cpu.RA >> 8)
@@ -2128,6 +2132,10 @@ func op_mvp(cpu *CPU) {
 		cpu.RX--
 	}
 
+	// the count is the full 16-bit C accumulator; with m=1 it lives in RAh:RAl
+	if cpu.M == 1 {
+		cpu.RA = uint16(cpu.RAh)<<8 | uint16(cpu.RAl)
+	}
 	cpu.RA--
 	cpu.RAl = uint8(cpu.RA & 0x00ff)
 	cpu.RAh = uint8(cpu.RA >> 8)
